@@ -1,6 +1,7 @@
 (* C10 — Arena bookkeeping and reported statistics are always coherent. *)
 From Coq Require Import ZArith List.
-From BS Require Import Word BumpSpec ChunkSpec Arena ArenaInv ArenaStats ArenaExt ArenaInv2 ArenaSizes ArenaHeader ArenaAny AllocRefine.
+From BS Require Import Word BumpSpec ChunkSpec Arena ArenaInv ArenaStats ArenaExt ArenaInv2 ArenaSizes ArenaHeader ArenaAny AllocRefine StatsSpec.
+From BS.gen Require StatsRules.
 From BS.gen Require AllocSites.
 Import ListNotations.
 Open Scope Z_scope.
@@ -132,6 +133,27 @@ Theorem C10_source_new_chunk_header_is_the_models :
     AllocSites.new_chunk_down_end (cbase ch) = Ok (h_end (header_of c ch)).
 Proof. exact new_chunk_header_refines. Qed.
 
+(* the summing rules of the statistics, read out of the CURRENT src/stats.rs and src/stats/any.rs on every run
+   (gen/StatsRules.v): a term of the current chunk, a term per earlier chunk, a term per later chunk.  The tables of
+   both views pass rules_ok, the iterators start at the first / last chunk, and a table that passes computes
+   Arena.arena_stats in every state (StatsSpec.v) - so typed and type-erased totals are the model's and each other's *)
+Theorem C10_source_statistics_rules_are_the_models :
+  rules_ok StatsRules.typed_rules = true /\ rules_ok StatsRules.any_rules = true /\
+  StatsRules.typed_small_to_big_starts_at_the_first_chunk = true /\ StatsRules.typed_big_to_small_starts_at_the_last_chunk = true /\
+  StatsRules.any_small_to_big_starts_at_the_first_chunk = true /\ StatsRules.any_big_to_small_starts_at_the_last_chunk = true.
+Proof. vm_compute. repeat split; reflexivity. Qed.
+
+Theorem C10_rules_that_pass_compute_the_models_statistics :
+  forall c s i ch rs r,
+  cur s = Cur i -> nth_error (chunks s) i = Some ch -> forallb rule_ok rs = true -> In r rs ->
+  eval_rule c r (firstn i (chunks s)) ch (skipn (S i) (chunks s)) =
+  let st := arena_stats c s in
+  match r_name r with
+  | Scount => st_count st | Ssize => st_size st | Scapacity => st_capacity st
+  | Sallocated => st_allocated st | Sremaining => st_remaining st
+  end.
+Proof. exact rules_compute_arena_stats. Qed.
+
 Print Assumptions C10_stats_identities.
 Print Assumptions C10_reachable.
 Print Assumptions C10_chunks_strictly_grow.
@@ -148,3 +170,5 @@ Print Assumptions C10_source_grow_size_is_the_models.
 Print Assumptions C10_source_hint_composition_is_the_models.
 Print Assumptions C10_model_chunk_size_in_those_terms.
 Print Assumptions C10_source_new_chunk_header_is_the_models.
+Print Assumptions C10_source_statistics_rules_are_the_models.
+Print Assumptions C10_rules_that_pass_compute_the_models_statistics.
